@@ -407,6 +407,10 @@ pub fn a4_std_models(c: &StrCase) -> Outcome {
     if real != lines_b(b) {
         return Err(format!("str::lines({:?}) = {:?}, the model gives {:?}", s, real, lines_b(b)));
     }
+    // --- U9's axiom cr_is_ws
+    if !'\r'.is_whitespace() {
+        return Err("char::is_whitespace('\\r') is false".to_string());
+    }
     // --- U9's axiom lines_model, literally: str::lines is lines_c — the '\n'-separated pieces; a piece terminated by '\n' loses one
     // '\r' directly before it; the unterminated last piece is kept as it is (CR included) and dropped when empty
     {
